@@ -32,8 +32,8 @@ vars == <<src, tgt, d, st, n, lab>>
 (* ------------------------------------------------------------------------ *)
 (* the C09 universe                                                         *)
 (* ------------------------------------------------------------------------ *)
-Dn   == Disp(Some("N"), None, None)
-Dall == Disp(Some("N"), Some("D"), Some("I"))
+Dn   == Disp(Some("Nm"), None, None)
+Dall == Disp(Some("Nm"), Some("Ds"), Some("Ic"))
 U1 == Units(Unit("u", "us", "ul", "uls"), {[m |-> 1024, unit |-> Unit("ku", "ku", "kul", "kuls")]})
 U0 == Units(Unit("u", "u", "u", "u"), {})
 
@@ -330,13 +330,14 @@ BasesValid == (IsCase /\ n = 0 /\ src # NoSrc) => Classify(tgt, d).stage = "usab
 
 (* ------------------------------------------------------------------------ *)
 (* export: compact JSON of a tree                                           *)
-(*   string "..", integer 5, boolean, float {"f":halves}, nil {"z":true},   *)
+(*   string "..", integer 5 ({"u":5} once a transport made it unsigned),    *)
+(*   boolean, float {"f":halves}, nil {"z":true},                           *)
 (*   list {"l":[..]}, map {"m":{"sKEY":..,"i5":..}} ({"m":[]} when empty)   *)
 (* ------------------------------------------------------------------------ *)
 JKey(a) == IF a.k = "str" THEN "s" \o a.v ELSE "i" \o ToString(a.v)
 RECURSIVE J(_)
 J(x) == CASE x.k = "str"  -> x.v
-          [] x.k = "num"  -> (IF x.rep = "f" THEN [f |-> x.v] ELSE x.v)
+          [] x.k = "num"  -> (IF x.rep = "f" THEN [f |-> x.v] ELSE IF x.rep = "u" THEN [u |-> x.v] ELSE x.v)
           [] x.k = "bool" -> x.v
           [] x.k = "nil"  -> [z |-> TRUE]
           [] x.k = "list" -> [l |-> [i \in DOMAIN x.v |-> J(x.v[i])]]
@@ -351,8 +352,11 @@ AllToks == UNION {Strs(x) \cup KeyStrs(x) : x \in AllDescs}
            \cup UNION {Strs(a) : a \in RetypeAtoms} \cup {"nowhere", "zz", "zz2"}
            \cup {ToString(i) : i \in {-1, 0, 1, 2, 7, 1024}}
 
+XfSample == M({E(S("a"), N(5)), E(S("b"), N(-1)), E(S("c"), F(3)), E(S("d"), F(4)), E(S("e"), M({})),
+               E(N(1024), L(<<B(TRUE), S("x"), N(0), Nil>>))})
 Export ==
     CASE st = "bind" -> Emit([mode |-> "bind", toks |-> {TokAttr(s) : s \in AllToks},
+                              xf_sample |-> J(XfSample), xf |-> [x \in Transports |-> J(Xf(x, XfSample))],
                               int_bounds_nonneg |-> IntBoundsNonNeg, enum_keys |-> EnumKeys])
       [] st = "desc" /\ Mode = "c09" ->
             Emit([mode |-> "c09", target |-> tgt, ast |-> src, desc |-> J(d), minimal |-> J(MinimalTop(tgt, d)),
